@@ -20,6 +20,13 @@ def run(repo, run, tier):
     cache_key(repo, run)
     wrappers(repo, run)
     layout(repo, run)
+    try:
+        quotient(repo, run)
+    except AnalysisError as e:
+        if not any(f.rule == "C16.4" for f in run.findings):
+            raise
+        run.notes.append("C16.8 not evaluated (%s): the layout rule C16.4 already reports this loop" % e)
+        run.rules.pop("C16.8", None)
     fd_extrapolation(repo, run, tier)
     wrapper_statelessness(repo, run)
 
@@ -379,6 +386,11 @@ def layout(repo, run):
         run.report("C16.4", UTL, stores[0] if stores else lp, "a derivative with respect to input %s is not stored in column %s of the work array: entries of the Jacobian are transposed or misplaced" % (idx, idx))
     masks = [st for st in lp.body if isinstance(st, ast.Assign) and isinstance(st.targets[0], ast.Subscript) and src(st.value) == "1.0"]
     okm = len(masks) == 1 and src(masks[0].targets[0].slice) == idx
+    if not masks:
+        # the other idiom: the component is shifted in the flattened input itself (`flat[idx] = value + x*h` ... `flat[idx] = value`); whether writing into the
+        # caller's array is acceptable is C13's question, the layout question here is only WHICH component moves
+        masks = [st for st in ast.walk(lp) if isinstance(st, ast.Assign) and isinstance(st.targets[0], ast.Subscript) and src(st.targets[0].value) == flat_in]
+        okm = bool(masks) and all(src(st.targets[0].slice) == idx for st in masks)
     run.judged(rid, "perturbation mask set at index `%s`" % idx, ok=okm)
     if not okm:
         run.report("C16.4", UTL, masks[0] if masks else lp, "the perturbed component is not component %s" % idx, text="perturbation mask index")
@@ -398,6 +410,184 @@ def layout(repo, run):
     if not okr:
         run.report("C16.4", UTL, rets[0] if rets else fn, "the non-flat result is not reshaped to (*output shape, *input shape): entry [i..., j...] would not be d out_i / d in_j",
                    text="estimate result reshape")
+
+
+# ------------------------------------------------------------------------------------------------
+def quotient(repo, run):
+    """C16.8: one generic iteration of the per-component loop of JacobianWrapper.estimate is executed symbolically (Laurent polynomials) on every
+    path, with the wrapped function linearised at the evaluation point: f(y + d*e_idx) = F0 + d*G.  The stencil weights satisfy sum w = 0 and
+    sum w*x = 1 (the moment system whose exact solution C16.6 checks), so column idx must come out as exactly G: the accumulated sum has to be divided
+    by the very step the component was perturbed with (per component when the step is rescaled per component)."""
+    from ..sym import Poly
+    rid = run.rule("C16.8", "JacobianWrapper.estimate: symbolic execution of one iteration of the component loop with f linearised (f(y + d e_j) = F0 + d G) "
+                            "and the stencil moments (sum w = 0, sum w x = 1): column j of the work array equals G on every path, i.e. the weighted "
+                            "sum is divided by the step that component was perturbed with", floor=1)
+    fn = repo.get(UTL, "JacobianWrapper.estimate")
+    loops = [st for st in fn.body if isinstance(st, ast.For) and isinstance(st.iter, ast.Call) and fname(st.iter) == "enumerate"]
+    if len(loops) != 1:
+        raise AnalysisError("JacobianWrapper.estimate: the loop over inputs was not found")
+    lp = loops[0]
+    idx = lp.target.elts[0].id
+    comp = lp.target.elts[1].id if isinstance(lp.target.elts[1], ast.Name) else None
+    yname = [a.arg for a in fn.args.args][1]
+    flat_in = None
+    for st in fn.body:
+        if isinstance(st, ast.Assign) and isinstance(st.value, ast.Call) and fname(st.value) == "reshape" and src(st.value.args[0]) == yname:
+            flat_in = src(st.targets[0])
+    cols = [st for st in ast.walk(lp) if isinstance(st, (ast.Assign, ast.AugAssign)) and isinstance(_tgt(st), ast.Subscript)
+            and Canon().index_text(_tgt(st).slice).replace(" ", "") == ":,%s" % idx]
+    if not cols or flat_in is None:
+        raise AnalysisError("JacobianWrapper.estimate: the column store of the finite-difference loop was not found")
+    jname = src(_tgt(cols[0]).value)
+    masks = {src(st.targets[0].value) for st in lp.body if isinstance(st, ast.Assign) and isinstance(st.targets[0], ast.Subscript) and src(st.value) == "1.0"}
+
+    class Unknown(Exception):
+        pass
+
+    def is_col(node):
+        return isinstance(node, ast.Subscript) and src(node.value) == jname and Canon().index_text(node.slice).replace(" ", "") == ":,%s" % idx
+
+    def ev(node, env):
+        def hook(n, canon):
+            if is_col(n):
+                return env["<col>"]
+            if isinstance(n, ast.Name) and n.id == jname:
+                return env["<col>"]
+            if isinstance(n, ast.Name) and n.id in env:
+                return env[n.id]
+            if isinstance(n, ast.Name) and n.id in masks:
+                return Poly.atom("<mask>")
+            if isinstance(n, ast.Name) and n.id in (flat_in, yname):
+                return Poly.atom("<y>")
+            if isinstance(n, ast.Call) and fname(n) in ("reshape", "asarray", "copy", "clone") and n.args:
+                return canon.poly(n.args[0])
+            if isinstance(n, ast.Name) and n.id == comp:
+                return Poly.atom("<yj>")
+            if isinstance(n, ast.Call) and is_self_attr(n.func, "rhs") and n.args:
+                arg = canon.poly(n.args[0])
+                if "<pert>" in env and not (arg - Poly.atom("<y>")):
+                    return Poly.atom("<F0>") + env["<pert>"] * Poly.atom("<G>")
+                d = arg.diff("<mask>")
+                if (arg - d * Poly.atom("<mask>") - Poly.atom("<y>")) or "<mask>" in d.atoms() or "<y>" in d.atoms():
+                    raise Unknown("the perturbed argument `%s` is not  y + d * mask" % src(n.args[0]))
+                return Poly.atom("<F0>") + d * Poly.atom("<G>")
+            return None
+        return Canon(atom_hook=hook).poly(node)
+
+    def moments(delta, A, w):
+        """sum over the stencil nodes of a polynomial whose every monomial carries the weight once: w -> 0, w*x -> 1"""
+        out = Poly()
+        for m, c in delta.items():
+            if m.count(w) != 1:
+                raise Unknown("a term of the accumulated sum does not carry the stencil weight exactly once")
+            k = m.count(A)
+            rest = tuple(a for a in m if a not in (w, A))
+            if k == 0:
+                continue
+            if k == 1:
+                out = out + Poly({rest: c})
+            else:
+                raise Unknown("non-linear dependence on the node position")
+        return out
+
+    def tgt_name(st):
+        t = _tgt(st)
+        return t.id if isinstance(t, ast.Name) else None
+
+    def exec_block(stmts, envs):
+        for st in stmts:
+            nxt = []
+            for env in envs:
+                nxt.extend(exec_stmt(st, env))
+            envs = nxt
+        return envs
+
+    def exec_stmt(st, env):
+        if isinstance(st, ast.Assign) and len(st.targets) == 1:
+            t = st.targets[0]
+            if isinstance(t, ast.Name):
+                e2 = dict(env)
+                if t.id == jname:
+                    e2["<col>"] = ev(st.value, env)
+                else:
+                    try:
+                        e2[t.id] = ev(st.value, env)
+                    except Unknown:
+                        e2.pop(t.id, None)
+                return [e2]
+            if is_col(t):
+                e2 = dict(env)
+                e2["<col>"] = ev(st.value, env)
+                return [e2]
+            if isinstance(t, ast.Subscript) and src(t.value) == jname:
+                raise Unknown("store into another part of the work array inside the component loop: `%s`" % src(t))
+            if isinstance(t, ast.Subscript) and src(t.value) == flat_in:
+                if src(t.slice) != idx:
+                    raise Unknown("store into another component of the input: `%s`" % src(t))
+                e2 = dict(env)
+                e2["<pert>"] = ev(st.value, env) - Poly.atom("<yj>")
+                if "<y>" in e2["<pert>"].atoms():
+                    raise Unknown("the in-place perturbation `%s` is not  value + shift" % src(st)[:60])
+                return [e2]
+            return [env]
+        if isinstance(st, ast.AugAssign) and (is_col(st.target) or (isinstance(st.target, ast.Name) and (st.target.id == jname or st.target.id in env))):
+            bo = ast.BinOp(left=st.target, op=st.op, right=st.value)
+            e2 = dict(env)
+            e2["<col>" if (is_col(st.target) or st.target.id == jname) else st.target.id] = ev(bo, env)
+            return [e2]
+        if isinstance(st, ast.If):
+            return exec_block(st.body, [dict(env, **{"<path>": env["<path>"] + ["if " + src(st.test)[:60]]})]) + \
+                exec_block(st.orelse, [dict(env, **{"<path>": env["<path>"] + ["not (" + src(st.test)[:60] + ")"]})])
+        if isinstance(st, ast.For):
+            if not (isinstance(st.iter, ast.Call) and fname(st.iter) == "zip" and isinstance(st.target, ast.Tuple) and len(st.target.elts) == 2):
+                raise Unknown("a loop other than the loop over (node, weight) pairs inside the component loop")
+            A, w = (e.id for e in st.target.elts)
+            roles = [src(a) for a in st.iter.args]
+            if "weight" in roles[0]:
+                A, w = w, A
+            out = []
+            for env1 in [dict(env, **{A: Poly.atom("<x>"), w: Poly.atom("<w>")})]:
+                for env2 in exec_block(st.body, [env1]):
+                    delta = env2["<col>"] - env["<col>"]
+                    e3 = dict(env)
+                    e3["<col>"] = env["<col>"] + moments(delta, "<x>", "<w>")
+                    out.append(e3)
+            return out
+        if isinstance(st, (ast.Expr, ast.Pass)):
+            return [env]
+        raise Unknown("statement kind %s inside the component loop" % type(st).__name__)
+
+    run.analysed_fn(UTL, fn)
+    try:
+        envs = exec_block(lp.body, [{"<col>": Poly(), "<path>": []}])
+        after = fn.body[fn.body.index(lp) + 1:]
+        tail = [st for st in after if isinstance(st, (ast.Assign, ast.AugAssign)) and (tgt_name(st) == jname)]
+        # names bound inside the loop are per-component values: after the loop they hold the LAST component's value, not this one's
+        loop_locals = {n.id for st in ast.walk(lp) for n in ast.walk(st) if isinstance(n, ast.Name) and isinstance(n.ctx, ast.Store)}
+        outs = []
+        for env in envs:
+            for st in tail:
+                stale = {n.id for n in ast.walk(st.value) if isinstance(n, ast.Name) and n.id in loop_locals}
+                env = dict(env)
+                for nme in stale:
+                    env[nme] = Poly.atom("<last component's %s>" % nme)
+                env = exec_stmt(st, env)[0]
+            outs.append(env)
+    except Unknown as e:
+        raise AnalysisError("JacobianWrapper.estimate: the finite-difference loop could not be executed symbolically (%s)" % e)
+    for env in outs:
+        col = env["<col>"].cancel()
+        ok = not (col - Poly.atom("<G>"))
+        run.judged(rid, "path [%s]: column %s = %s" % ("; ".join(env["<path>"]) or "straight", idx, col.canon()), ok=ok)
+        if not ok:
+            run.report("C16.8", UTL, cols[-1], "on the path [%s] column %s of the finite-difference Jacobian comes out as  %s  where G is the derivative of the wrapped "
+                       "function with respect to that component: the weighted sum of the stencil is not divided by the step this component was perturbed "
+                       "with (entries of that column are scaled)" % ("; ".join(env["<path>"]) or "straight", idx, col.canon()),
+                       text="estimate column = %s" % col.canon())
+
+
+def _tgt(st):
+    return st.targets[0] if isinstance(st, ast.Assign) else st.target
 
 
 # ------------------------------------------------------------------------------------------------
